@@ -32,6 +32,11 @@ def gen_cases(tier, seed):
     for i in range(40 if tier == 'quick' else 800):
         cases.append({'kind': 'threads', 'm': rng.choice([1, 1, 2, 3]), 'n': rng.choice([2, 2, 3, 4]), 'bound': rng.choice([0, 1, 3]), 'rounds': rng.choice([3, 5]),
                       'items': rng.choice([1, 5, 12]), 'p': rng.choice([0.05, 0.2]), 'overlap': True, 'seed': rng.randrange(1 << 30)})
+    # the other queue kinds: queue.SimpleQueue, and process queues (mpservice.multiprocessing.Queue / SimpleQueue) used between threads
+    for i in range(24 if tier == 'quick' else 400):
+        cases.append({'kind': 'threads', 'm': rng.choice([1, 2, 3]), 'n': rng.choice([1, 2, 3]), 'bound': rng.choice([0, 2]), 'rounds': rng.choice([2, 3]),
+                      'items': rng.choice([0, 1, 5, 20]), 'p': rng.choice([0.05, 0.2]), 'qkind': ['queue.SimpleQueue', 'mm.Queue', 'mm.SimpleQueue'][i % 3],
+                      'with_stop_event': i % 2 == 0, 'seed': rng.randrange(1 << 30)})
     # a stop event is attached (never set): get/put poll every second; suppliers stall for about that interval
     for i in range(14 if tier == 'quick' else 200):
         cases.append({'kind': 'threads', 'm': rng.choice([1, 2]), 'n': rng.choice([1, 2, 3]), 'bound': rng.choice([0, 1]), 'rounds': 2, 'items': rng.choice([2, 6]),
@@ -43,8 +48,16 @@ def gen_cases(tier, seed):
     for i in range(6 if tier == 'quick' else 100):
         cases.append({'kind': 'stop', 'moment': 'race', 'n': rng.choice([2, 3, 4]), 'items': rng.choice([1, 1, 2]), 'rounds': 5 if tier == 'quick' else 12, 'seed': rng.randrange(1 << 30)})
     for i in range(4 if tier == 'quick' else 60):
-        cases.append({'kind': 'processes', 'm': rng.choice([1, 2]), 'n': rng.choice([2, 3]), 'items': rng.choice([5, 40]), 'rounds': 2, 'seed': rng.randrange(1 << 30)})
+        cases.append({'kind': 'processes', 'm': rng.choice([1, 2]), 'n': rng.choice([2, 3]), 'items': rng.choice([5, 40]), 'rounds': 2, 'pkind': ['queue', 'simple', 'stoppable', 'queue'][i % 4],
+                      'seed': rng.randrange(1 << 30)})
     return cases
+
+
+def _qsize(q):
+    try:
+        return q.qsize()
+    except (AttributeError, NotImplementedError):
+        return 0  # this queue kind has no qsize()
 
 
 def run_threads(case):
@@ -52,7 +65,17 @@ def run_threads(case):
 
     rng = random.Random(case['seed'])
     m, n, rounds = case['m'], case['n'], case['rounds']
-    if case.get('with_stop_event'):
+    qkind = case.get('qkind', 'queue.Queue')
+    if qkind != 'queue.Queue':
+        # the other queue kinds the class accepts (process queues used between threads go through feeder threads and pipes)
+        import mpservice.multiprocessing as mm
+
+        base = {'queue.SimpleQueue': _queue.SimpleQueue, 'mm.Queue': lambda: mm.Queue(case['bound']), 'mm.SimpleQueue': mm.SimpleQueue}[qkind]()
+        ev = None
+        if case.get('with_stop_event') and qkind != 'mm.SimpleQueue':
+            ev = mm.Event() if qkind == 'mm.Queue' else threading.Event()
+        q = MQ.IterableQueue(base, num_suppliers=m, **({'to_stop': ev} if ev is not None else {}))
+    elif case.get('with_stop_event'):
         q = MQ.IterableQueue(_queue.Queue(case['bound']), num_suppliers=m, to_stop=threading.Event())
     else:
         q = MQ.IterableQueue(_queue.Queue(case['bound']), num_suppliers=m)
@@ -112,7 +135,7 @@ def run_threads(case):
                 bar.wait(BOUND)
                 if c == 0 and r + 1 < rounds:
                     q.renew()
-                    renew_info.append((r, q.qsize() if not overlap else 0))
+                    renew_info.append((r, _qsize(q) if not overlap else 0))
                 if not overlap:
                     bar.wait(BOUND)
         except threading.BrokenBarrierError:
@@ -328,7 +351,13 @@ def run_processes(case):
     m, n, rounds = case['m'], case['n'], 1  # one round across processes (renew across processes is exercised in threads)
     viol = []
     obs = {'process_runs': 1, 'items_delivered': 0}
-    q = MQ.IterableQueue(mm.Queue(), num_suppliers=m)
+    pk = case.get('pkind', 'queue')
+    if pk == 'simple':
+        q = MQ.IterableQueue(mm.SimpleQueue(), num_suppliers=m)
+    elif pk == 'stoppable':
+        q = MQ.IterableQueue(mm.Queue(), num_suppliers=m, to_stop=mm.Event())  # travels to the children together with the queue
+    else:
+        q = MQ.IterableQueue(mm.Queue(), num_suppliers=m)
     counts = [[rng.randrange(0, case['items'] + 1) for _ in range(m)]]
     out = mm.Queue()
     renew_q = mm.Queue()
